@@ -540,7 +540,8 @@ class MirIndex:
     def _index_consts(self):
         self.consts = {}
         data = self.data
-        for m in re.finditer(rb'^(?:const|static(?: mut)?) ([^\n]*?): ([^\n]*?) = ([^\n]*)$', data, re.M):
+        # the name may contain an `<impl at file.rs:L:C: L:C>` span, whose ': ' is not the name/type separator
+        for m in re.finditer(rb'^(?:const|static(?: mut)?) ((?:[^:\n]|::|:\d+:\d+: \d+:\d+>)+?): ([^\n]*?) = ([^\n]*)$', data, re.M):
             name = m.group(1).decode()
             ty = m.group(2).decode()
             rhs = m.group(3).decode().strip()
